@@ -1,0 +1,31 @@
+//go:build verif
+
+package wgsl
+
+// Verification hooks (build tag `verif`): read-only views of internal data
+// for the external verification harness. Not part of the public API.
+
+// VerifToken is a flattened view of one lexer token.
+type VerifToken struct {
+	Kind   int
+	Name   string
+	Lexeme string
+	Line   int
+	Column int
+}
+
+// VerifTokenize runs the lexer and returns the token stream.
+func VerifTokenize(source string) ([]VerifToken, error) {
+	toks, err := NewLexer(source).Tokenize()
+	if err != nil {
+		return nil, err
+	}
+	out := make([]VerifToken, len(toks.inner))
+	for i, t := range toks.inner {
+		out[i] = VerifToken{Kind: int(t.Kind), Name: t.Kind.String(), Lexeme: t.Lexeme, Line: t.Line, Column: t.Column}
+	}
+	return out, nil
+}
+
+// VerifInner exposes the parsed AST for reflection-based dumping.
+func (m *Module) VerifInner() any { return m.inner }
